@@ -40,7 +40,9 @@ MapSets == << <<MapR(1, 16, "bin1", "b1", FALSE), MapR(2, 48, "bin2", "", TRUE)>
               <<MapR(3, 16, "", "", FALSE), MapR(1, 48, "http://host/debug/pprof/profile", "", FALSE)>>,
               <<MapR(1, 16, "bin1", "b1", FALSE), MapR(2, 48, "bin2", "b2", FALSE)>>,
               \* partly symbolised: line numbers / file names but no has-functions flag (e.g. after a merge that ANDs the flags)
-              <<[MapR(1, 16, "bin1", "b1", FALSE) EXCEPT !.hasline = TRUE], [MapR(2, 48, "bin2", "b2", FALSE) EXCEPT !.hasfile = TRUE]>> >>
+              <<[MapR(1, 16, "bin1", "b1", FALSE) EXCEPT !.hasline = TRUE], [MapR(2, 48, "bin2", "b2", FALSE) EXCEPT !.hasfile = TRUE]>>,
+              \* two mappings of ONE binary (two segments, or the same library in merged profiles), only the second symbolised
+              <<MapR(1, 16, "bin1", "b1", FALSE), MapR(2, 48, "bin1", "b1", TRUE)>> >>
 \* locations: first mapping at its start and at limit-1; second mapping (symbolised or not) at start
 LocsFor(maps, fns, symd) ==
   << LocR(1, maps[1].id, maps[1].start, IF maps[1].hasline /\ Len(fns) > 0 THEN <<LineR(fns[1].id)>> ELSE <<>>),
